@@ -541,57 +541,108 @@ func init() {
 					c.Cover("long:" + kind11Names[kind])
 				}})
 				// one operation repeated far beyond every counter width, probed with every one-shot operation
-				us = append(us, core.Unit{Name: "very-long:" + kind11Names[kind], Cost: 40, Run: func(c *core.Ctx) {
-					w0 := newWorld()
-					ops0 := ops11(kind, w0)
-					fresh := make([]string, len(ops0))
-					for i, op := range ops0 {
-						if op.oneShot {
-							ww := newWorld()
-							fresh[i] = ops11(kind, ww)[i].run(newInst(kind, ww))
-						}
-					}
-					n := tierPick(tier, 66000, 140000)
-					probesAt := map[int]bool{255: true, 256: true, 257: true, 4096: true, 32768: true, 65535: true, 65536: true, 65537: true, 131072: true}
-					for a, opa := range ops0 {
-						if !opa.oneShot || len(fresh[a]) > 400 || strings.Contains(opa.name, "long string") {
-							continue
-						}
-						if !c.Begin() {
-							continue
-						}
-						c.NontrivialN(1)
-						ww := newWorld()
-						in := newInst(kind, ww)
-						ops := ops11(kind, ww)
-						bad := ""
-						for i := 1; i <= n && bad == ""; i++ {
-							in.results, in.copies = in.results[:0], in.copies[:0]
-							if res := ops[a].run(in); res != fresh[a] {
-								bad = fmt.Sprintf("call #%d of %q differs from a fresh instance's result", i, ops[a].name)
+				for shard := 0; shard < 4; shard++ {
+					shard := shard
+					us = append(us, core.Unit{Name: fmt.Sprintf("very-long:%s:%d", kind11Names[kind], shard), Cost: 40, Run: func(c *core.Ctx) {
+						w0 := newWorld()
+						ops0 := ops11(kind, w0)
+						fresh := make([]string, len(ops0))
+						for i, op := range ops0 {
+							if op.oneShot {
+								ww := newWorld()
+								fresh[i] = ops11(kind, ww)[i].run(newInst(kind, ww))
 							}
-							c.Res.Transitions++
-							if probesAt[i] {
-								for b := range ops {
-									if ops[b].oneShot {
-										if res := ops[b].run(in); res != fresh[b] && bad == "" {
-											bad = fmt.Sprintf("after %d calls of %q, %q differs from a fresh instance's result", i, ops[a].name, ops[b].name)
+						}
+						n := tierPick(tier, 66000, 140000)
+						probesAt := map[int]bool{255: true, 256: true, 257: true, 4096: true, 32768: true, 65535: true, 65536: true, 65537: true, 131072: true}
+						for a, opa := range ops0 {
+							if !opa.oneShot || len(fresh[a]) > 400 || strings.Contains(opa.name, "long string") || a%4 != shard {
+								continue
+							}
+							if !c.Begin() {
+								continue
+							}
+							c.NontrivialN(1)
+							ww := newWorld()
+							in := newInst(kind, ww)
+							ops := ops11(kind, ww)
+							bad := ""
+							for i := 1; i <= n && bad == ""; i++ {
+								in.results, in.copies = in.results[:0], in.copies[:0]
+								if res := ops[a].run(in); res != fresh[a] {
+									bad = fmt.Sprintf("call #%d of %q differs from a fresh instance's result", i, ops[a].name)
+								}
+								c.Res.Transitions++
+								if probesAt[i] {
+									for b := range ops {
+										if ops[b].oneShot {
+											if res := ops[b].run(in); res != fresh[b] && bad == "" {
+												bad = fmt.Sprintf("after %d calls of %q, %q differs from a fresh instance's result", i, ops[a].name, ops[b].name)
+											}
 										}
 									}
 								}
 							}
+							if bad == "" {
+								bad = ww.unchanged()
+							}
+							if bad != "" {
+								c.Report(&core.Violation{Stage: "very-long", Kind: "differs-from-fresh", Shape: kind11Names[kind], Message: msgClass(bad), Case: fmt.Sprintf("%s: %q x %d with probes", kind11Names[kind], opa.name, n)})
+							}
+							c.Res.States++
 						}
-						if bad == "" {
-							bad = ww.unchanged()
+						// the same operation X exactly d calls apart with only filler calls in between, for d around
+						// every counter width (a per-call counter that wraps makes call d look like call 0)
+						var fillers []int
+						for a, opa := range ops0 {
+							if opa.oneShot && len(fillers) < 3 && (strings.HasSuffix(opa.name, "int32") || strings.HasSuffix(opa.name, " R11") || strings.HasSuffix(opa.name, "[]int32")) {
+								fillers = append(fillers, a)
+							}
 						}
-						if bad != "" {
-							c.Report(&core.Violation{Stage: "very-long", Kind: "differs-from-fresh", Shape: kind11Names[kind], Message: msgClass(bad), Case: fmt.Sprintf("%s: %q x %d with probes", kind11Names[kind], opa.name, n)})
+						for _, a := range fillers {
+							for x := range ops0 {
+								if !ops0[x].oneShot || x == a || strings.Contains(ops0[x].name, "long string") || x%4 != shard {
+									continue
+								}
+								for _, d := range []int{255, 256, 257, 65535, 65536, 65537} {
+									if tier != "thorough" && d != 256 && d != 65536 {
+										continue
+									}
+									if !c.Begin() {
+										continue
+									}
+									c.NontrivialN(1)
+									ww := newWorld()
+									in := newInst(kind, ww)
+									ops := ops11(kind, ww)
+									bad := ""
+									if res := ops[x].run(in); res != fresh[x] {
+										bad = "first call differs from a fresh instance's result"
+									}
+									for i := 1; i < d && bad == ""; i++ {
+										in.results, in.copies = in.results[:0], in.copies[:0]
+										if res := ops[a].run(in); res != fresh[a] {
+											bad = fmt.Sprintf("filler call #%d differs from a fresh instance's result", i)
+										}
+									}
+									c.Res.Transitions += int64(d)
+									if bad == "" {
+										if res := ops[x].run(in); res != fresh[x] {
+											bad = "the second call differs from a fresh instance's result"
+										}
+									}
+									if bad != "" {
+										c.Report(&core.Violation{Stage: "very-long", Kind: "differs-from-fresh", Shape: kind11Names[kind], Message: msgClass(bad),
+											Case: fmt.Sprintf("%s: %q ; %q x %d ; %q", kind11Names[kind], ops0[x].name, ops0[a].name, d-1, ops0[x].name)})
+									}
+									c.Res.States++
+								}
+							}
 						}
-						c.Res.States++
-					}
-					c.Outcome("very-long-ok")
-					c.Cover("very-long:" + kind11Names[kind])
-				}})
+						c.Outcome("very-long-ok")
+						c.Cover("very-long:" + kind11Names[kind])
+					}})
+				}
 			}
 			return us
 		},
